@@ -331,6 +331,7 @@ class SegmModel:
             return NotImplemented
         ev = PrefixEval(self.mod, inline=set(), max_depth=8, sign_policy=lambda d, node=None: sign, call_policy=walk_started)
         fn = self.fn
+        run_ev = ev.home_evaluator(fn)        # (a genhkl_base imported back from a private module runs there)
         env = {}
         given = {"Laue_class": Laue, "cell_choice": cc, "crystal_system": csys if csys is not None else "triclinic",
                  "unit_cell": sym_array("unit_cell", (6,)), "sysconditions": sym_array("sysconditions", (26,)),
@@ -342,7 +343,7 @@ class SegmModel:
                 env[p] = given[p]
             else:
                 j = i - (len(params) - nd)
-                env[p] = ev.eval(fn.args.defaults[j], {}) if j >= 0 else Rat.atom(p)
+                env[p] = run_ev.eval(fn.args.defaults[j], {}) if j >= 0 else Rat.atom(p)
 
         def is_table(v):
             A = v if isinstance(v, Arr) else (materialise(v) if isinstance(v, (list, tuple)) else None)
@@ -370,7 +371,7 @@ class SegmModel:
                     # a loop that can be evaluated (a scan of a static table) belongs to the prefix; the walk cannot
                     trial = {k_: (v_.copy() if isinstance(v_, Arr) else v_) for k_, v_ in env.items()}
                     try:
-                        ev.exec_stmt(st, trial)
+                        run_ev.exec_stmt(st, trial)
                         env.clear()
                         env.update(trial)
                         continue
@@ -380,7 +381,7 @@ class SegmModel:
                         stop_error = e
                     if isinstance(st, ast.For):
                         try:
-                            t = is_table(ev.eval(st.iter, env))
+                            t = is_table(run_ev.eval(st.iter, env))
                             if t is not None:
                                 found.append(t)
                         except AnalysisError:
@@ -388,7 +389,7 @@ class SegmModel:
                     stopped_at = si
                     break
                 try:
-                    ev.exec_stmt(st, env)
+                    run_ev.exec_stmt(st, env)
                 except (PyRaise, RaiseReached, _Return):
                     raise
                 except AnalysisError as e:
